@@ -7,6 +7,17 @@ def T(qcases, tcases, qbudget=240, tbudget=1500, workers=16):
             "thorough": dict(cases=tcases, budget_s=tbudget, workers=workers)}
 
 PROPS = {
+    "C19": dict(sources=["props/C19.cpp"], jls=True, level="fault_enumeration", tiers=T(400, 6000, qbudget=300, tbudget=1800),
+                worker_variants=["fast", "fast", "fast", "asan"],
+                assumptions=["crash images as in C03 (exact write-log replay); only images that jls_rd_open accepts are judged",
+                             "'same answers' = dump_compare over definitions, lengths, all samples, a statistics battery, annotations, UTC, user data",
+                             "the real-file class writes a scratch file under /tmp, reads it through the genuine backend and removes it"]),
+    "C03": dict(sources=["props/C03.cpp"], jls=True, level="fault_enumeration", tiers=T(60, 900, qbudget=300, tbudget=1800),
+                worker_variants=["fast", "fast", "fast", "asan"],
+                assumptions=["crash images are exact replays of the backend write log (every write/truncate of backend_posix.c) up to operation k plus b bytes of operation k+1; the page cache is assumed to persist writes in order",
+                             "'submitted' counts the samples of calls that had started when the writer stopped; the loss bound uses calls that had completed",
+                             "signals with omission on request are not compared sample by sample (the reader synthesises omitted blocks)",
+                             "each case examines the boundaries k = phase (mod stride); all boundaries are covered across cases, not within one case"]),
     "C17": dict(sources=["props/C17.cpp"], jls=True, tiers=T(250, 4000),
                 assumptions=["statistics of original and copy are compared with relative tolerance 1e-9 (same data, same block structure)",
                              "for unclosed/cut originals the original is dumped after copying (opening repairs it) and must be contained in the copy's dump; a cut source that jls_copy refuses is not judged"]),
@@ -53,6 +64,14 @@ PROPS = {
 HOOK_COMMITS = ["6203c3e4032b5e35344eee56bc8020982a6abdeb"]
 
 MANIFEST_TEXT = {
+    "C19": dict(
+        technique="fault injection (write-log replay) + idempotence/read-only invariants over the backend log: open, reopen, reopen; byte and dump equality",
+        level_text="Closed files are read by generated read scripts with the backend log on: no write/truncate/RDWR-open may occur and bytes stay identical (also on a real file through the genuine backend, checked by size/mtime/bytes). Crash images that open are checked after the first open with the independent decoder (well-formed closed file) and then opened twice more: no mutating backend operation, identical bytes, identical dump.",
+        level_note="Trusted: VFS log, decoder.h, dump comparator. KF-C03-1 (torn in-place rewrite) is matched by predicate for the well-formedness clause."),
+    "C03": dict(
+        technique="fault injection by exact write-log replay: generated writer programs x enumerated crash points (write boundaries and byte prefixes), each image reopened and compared with the model prefix",
+        level_text="For every generated program the backend write log is recorded with API-call markers; for the selected boundaries every image (k complete operations + b bytes of the next; every byte of header-sized writes, sampled bytes of long payloads) is materialised in a fresh in-memory file and opened with jls_rd_open under an I/O budget. Opened images must expose only written definitions, lengths <= what had been submitted, bit-exact sample prefixes, matching statistics, and ordered subsequences of the written annotations/UTC/user data; at clean boundaries with all definitions on disk the open must succeed and lose at most the buffered samples plus one block.",
+        level_note="Trusted: VFS log + crash_image(); model. Open findings KF-C03-1 (torn in-place rewrite; judged in C05/C19) and KF-C03-2 (omitted blocks after the last stored summary chunk are lost) are matched by predicate. Hundreds of thousands of images per quick run; boundaries are sampled by stride across cases."),
     "C17": dict(
         technique="differential/round-trip property testing: reader dump of the original vs reader dump of jls_copy's output, plus the independent decoder on the copy",
         level_text="Generated multi-signal files (all types, offsets, omit toggles, annotations incl. signal 0, UTC, user data up to > 1 MiB), closed, unclosed at an API boundary, or cut at a generated point of the backend write log, are copied; the copy must be a conformant closed file and its dump must equal (closed original) or contain (unclosed original) the original's dump: definitions, lengths, every sample, a statistics battery, annotations, UTC entries, user data. Leaks are caught by LeakSanitizer.",
